@@ -479,6 +479,24 @@ func (p *parser) parseContainerType(node *node32) (typ *Type, err error) {
 	}
 }
 
+// doubleText returns the text of a DoubleConstant without layout. The exponent
+// is an IntConstant, so blanks and comments may stand between the 'e' and its
+// digits and after them; they are part of the matched text.
+func doubleText(text string) string {
+	text = strings.TrimSpace(text)
+	i := strings.IndexAny(text, "eE")
+	if i < 0 {
+		return text
+	}
+	exp := text[i+1:]
+	j := len(exp)
+	for j > 0 && (exp[j-1] == '+' || exp[j-1] == '-' || exp[j-1] >= '0' && exp[j-1] <= '9' ||
+		exp[j-1] >= 'a' && exp[j-1] <= 'z' || exp[j-1] >= 'A' && exp[j-1] <= 'Z') {
+		j--
+	}
+	return text[:i+1] + exp[j:]
+}
+
 // parseIntConstant converts the text of an IntConstant: decimal digits with an
 // optional sign (a leading zero does not make them octal), or a number with a
 // 0x or 0o prefix.
@@ -500,8 +518,10 @@ func (p *parser) parseConstValue(node *node32) (cv *ConstValue, err error) {
 	// DoubleConstant / IntConstant / Literal / Identifier / ConstList / ConstMap
 	switch node.pegRule {
 	case ruleDoubleConstant:
-		// the exponent is an IntConstant, which also consumes the blanks after it
-		double, _ := strconv.ParseFloat(strings.TrimSpace(p.pegText(node)), 64)
+		double, err := strconv.ParseFloat(doubleText(p.pegText(node)), 64)
+		if err != nil {
+			return nil, fmt.Errorf("parseConstValue failed at '%s': %w", p.pegText(node), err)
+		}
 		return &ConstValue{Type: ConstType_ConstDouble, TypedValue: &ConstTypedValue{Double: &double}}, nil
 	case ruleIntConstant:
 		i, err := parseIntConstant(p.pegText(node), 64)
